@@ -119,6 +119,14 @@ def unit_lemmas():
         # two teams: value(d) = band(d) + band(-d)
         return inst + [absf(d1) <= absf(d2)], B(d2) + B(-d2) <= B(d1) + B(-d1)
     recs.append(generic_lemma("C10/lemma/two-teams-gap-monotone-from-L-band", two_team, fn="lemma"))
+    if _has_two_team_lemma():
+        def two_team_upper():
+            # Lean: two_team_draw_le_one  2 * band(m, s, d) <= 1  for m = sqrt(N) beta PhiInv((1 + 1/N)/2), s = sqrt(2 beta^2 + va + vb),
+            # N >= 2, beta > 0, va, vb >= 0;  band_even.  The value of a two-team game is band(d) + band(-d).
+            B = z3.Function("Band", R, R)
+            d = z3.Real("d")
+            return [B(-d) == B(d), 2 * B(d) <= 1], B(d) + B(-d) <= 1
+        recs.append(generic_lemma("C10/lemma/two-teams-at-most-one-from-the-Lean-lemma", two_team_upper, fn="lemma"))
     for npairs in (1, 3, 6, 10, 15, 21, 28):
         def equalise(npairs=npairs):
             Bs = [z3.Function(f"Band{k}", R, R) for k in range(npairs)]     # one per unordered pair (its own s_ab)
@@ -132,9 +140,19 @@ def unit_lemmas():
     return recs
 
 
+def _has_two_team_lemma():
+    import os
+    from .. import VERIF
+    p = os.path.join(VERIF, "lemmas", "Phi3.lean")
+    return os.path.exists(p) and "theorem two_team_draw_le_one" in open(p, encoding="utf-8").read()
+
+
 def unit_lean():
     from .util import lean_check
-    return [lean_check("C10/lemmas/L-band-checked-by-Lean-Mathlib", "Phi2.lean")]
+    recs = [lean_check("C10/lemmas/L-band-checked-by-Lean-Mathlib", "Phi2.lean")]
+    if _has_two_team_lemma():
+        recs.append(lean_check("C10/lemmas/two-team-draw-at-most-one-checked-by-Lean-Mathlib", "Phi3.lean"))
+    return recs
 
 
 def units(tier):
